@@ -825,6 +825,10 @@ func (cl *w1SimClient) runOp(op w1Op) bool {
 		return true
 	case "sublong":
 		name := op.Ch + strings.Repeat("x", op.N)
+		if op.Rev {
+			// multi-byte characters: the limit is on bytes, not on characters
+			name = op.Ch + strings.Repeat("é", op.N)
+		}
 		return cl.send(&protocol.Command{Id: cl.id(), Subscribe: &protocol.SubscribeRequest{Channel: name, Token: "0:false"}}, "subscribe", name)
 	case "failwrites":
 		cl.tr.failWrites = true
@@ -1902,6 +1906,9 @@ func w1Gen(c *simrt.Choice, prop, tier string) any {
 				} else if prop == "C37" {
 					if c.Intn(2) == 0 {
 						op = w1Op{K: "sublong", Ch: "_l", N: []int{10, 11, 30}[c.Intn(3)]}
+						if c.Intn(3) == 0 {
+							op = w1Op{K: "sublong", Ch: "_l", N: []int{5, 6, 8}[c.Intn(3)], Rev: true}
+						}
 					} else {
 						op = w1Op{K: "stall"}
 					}
